@@ -9,7 +9,7 @@ FUNCTIONS = ['postprocessing.filter_worst_knees', 'postprocessing.filter_corner_
 BOUNDS = dict(quick='n <= 6 points (x concrete patterns) and n <= 4 with x symbolic (one interior knee per query); y and t symbolic; every ascending knee sub-list (<= 3 knees quick / 4 thorough for the corner filters)',
               thorough='n <= 7 points (x concrete patterns) and n <= 5 with x symbolic (one interior knee per query); y and t symbolic; every ascending knee sub-list (<= 3 knees quick / 4 thorough for the corner filters)')
 ASSUMPTIONS = ['exact real arithmetic (T1)', 'x strictly increasing', 't in [0,1]']
-CONFIG = dict(quick=dict(budget_s=140, case_wall_s=120), thorough=dict(budget_s=900))
+CONFIG = dict(quick=dict(budget_s=140, case_wall_s=120), thorough=dict(max_cases=1105, budget_s=900))
 
 
 def cases(tier, seed):
